@@ -125,7 +125,7 @@ def value_range(ctx, spec, find_site, allowed, track, names=None, prefer=(), rep
     return out
 
 
-def guard(ctx, spec, match, targets="returns", fail="raise", what="check", key=None, repo=None, sources=None, want_min=1):
+def guard(ctx, spec, match, targets="returns", fail="raise", what="check", key=None, repo=None, sources=None, want_min=1, exempt=None):
     """GUARD: every path to a target passes a check accepted by `match`."""
     mod, fn = get(ctx, spec, repo)
     cfg = cfg_of(fn)
@@ -137,7 +137,8 @@ def guard(ctx, spec, match, targets="returns", fail="raise", what="check", key=N
         tn = [n.id for n in targets(mod, fn)]
     gs = find_guards(mod, fn, match)
     ctx.count("paths", 1)
-    ok, msg, wit = check_guard(mod, fn, gs, tn, fail=fail, sources=sources)
+    ex = exempt(mod, fn) if exempt else ()
+    ok, msg, wit = check_guard(mod, fn, gs, tn, fail=fail, sources=sources, exempt_edges=ex)
     if ok:
         return ctx.ok(spec, "%s: %s (lines %s)" % (what, msg, ",".join(str(g.node.lineno) for g in gs)), fn, mod, key=key or what)
     node = gs[0].node.ast if gs else fn
